@@ -120,3 +120,69 @@ func stressSyncSet(plan []M, out *Out, _ []string) {
 		}
 	}
 }
+
+// Free-running "stable members and churn" rounds for sync2.Set (no hooks involved, so windows without hook sites are seen too):
+// `stable` values are added before the round and never removed, `absent` values are never added; churn goroutines Add / Remove a few
+// other values as fast as they can; observer goroutines ask Has for the stable and the absent values.  "Has never reports a value
+// that was never added or misses one that is stably present": one line per batch with the number of such answers.
+func init() { comps["syncset-stable"] = stableSyncSet }
+
+func stableSyncSet(plan []M, out *Out, _ []string) {
+	for _, p := range plan {
+		rounds, nstable, nchurnVals, churners, observers, nops := num(p, "rounds"), num(p, "stable"), num(p, "churnvals"), num(p, "churners"), num(p, "observers"), num(p, "ops")
+		misses, ghosts, checks, lenbad := 0, 0, 0, 0
+		for r := 0; r < rounds; r++ {
+			st := &sync2.Set[int]{}
+			for v := 0; v < nstable; v++ {
+				st.Add(v)
+			}
+			if r%2 == 1 {
+				st.Len() // every other round starts from a promoted map
+			}
+			var wg sync.WaitGroup
+			var mi, gh, ck, lb int64
+			start := make(chan struct{})
+			for c := 0; c < churners; c++ {
+				wg.Add(1)
+				go func(c int) {
+					defer wg.Done()
+					rng := rand.New(rand.NewSource(int64(num(p, "seed")*100000 + r*100 + c)))
+					<-start
+					for i := 0; i < nops; i++ {
+						v := 100 + rng.Intn(nchurnVals)
+						if rng.Intn(2) == 0 {
+							st.Add(v)
+						} else {
+							st.Remove(v)
+						}
+					}
+				}(c)
+			}
+			for o := 0; o < observers; o++ {
+				wg.Add(1)
+				go func(o int) {
+					defer wg.Done()
+					<-start
+					for i := 0; i < nops; i++ {
+						if nstable > 0 && !st.Has(i%nstable) {
+							atomic.AddInt64(&mi, 1)
+						}
+						if st.Has(1000 + i%3) {
+							atomic.AddInt64(&gh, 1)
+						}
+						if i%16 == 0 {
+							if n := st.Len(); n < nstable || n > nstable+nchurnVals {
+								atomic.AddInt64(&lb, 1)
+							}
+						}
+						atomic.AddInt64(&ck, 2)
+					}
+				}(o)
+			}
+			close(start)
+			wg.Wait()
+			misses, ghosts, checks, lenbad = misses+int(mi), ghosts+int(gh), checks+int(ck), lenbad+int(lb)
+		}
+		out.Emit(M{"ev": "stable", "rounds": rounds, "checks": checks, "misses": misses, "ghosts": ghosts, "lenbad": lenbad})
+	}
+}
